@@ -107,7 +107,16 @@ def execute(scn, order_seed=0):
         # decorator: both spellings of "no constraints" must mean the same
         if not scn["before"][p] and not scn["after"][p] and not scn["req"][p] and crnd.random() < 0.7:
             return digest
-        return constraints(before=scn["before"][p], after=scn["after"][p], required=scn["req"][p])(digest)
+        # (whatever is declared with its documented default - nothing before / after, not
+        #  required - is left to the default)
+        kw = {}
+        if scn["before"][p]:
+            kw["before"] = scn["before"][p]
+        if scn["after"][p]:
+            kw["after"] = scn["after"][p]
+        if scn["req"][p]:
+            kw["required"] = True
+        return constraints(**kw)(digest)
 
     eps = [FakeEntryPoint(p, make_digest(p)) for p in scn["inst"]]
     random.Random(order_seed).shuffle(eps)
